@@ -18,6 +18,7 @@ import (
 
 	"verif/enum"
 	"verif/ev"
+	"verif/pre"
 )
 
 const hbTimeout = 60 * time.Second
@@ -214,27 +215,8 @@ func TestC02(t *testing.T) {
 				rep.State(1)
 				for rf := 1; rf <= maxRF; rf++ {
 					r := rs.get(rf, za)
-					if za {
-						// the client first sees the same instances with the same tokens in other zones (every instance moved
-						// to the zone of its successor): whatever the client keeps from that must not leak into the answers
-						pre := c.desc(now)
-						ids := make([]string, 0, len(pre.Ingesters))
-						for id := range pre.Ingesters {
-							ids = append(ids, id)
-						}
-						sort.Strings(ids)
-						zs := make([]string, len(ids))
-						for i, id := range ids {
-							zs[i] = pre.Ingesters[id].Zone
-						}
-						for i, id := range ids {
-							in := pre.Ingesters[id]
-							in.Zone = zs[(i+1)%len(ids)]
-							pre.Ingesters[id] = in
-						}
-						r.VerifUpdateRingState(pre)
-					}
-					r.VerifUpdateRingState(c.desc(now))
+					// installed on top of earlier versions of itself: all-ACTIVE, zone-relabelled, token-shifted (see package pre)
+					pre.Install(r, c.desc(now), now)
 					read, rerr := r.GetReplicationSetForOperation(ring.Read)
 					rep.Eval(1)
 					if rerr != nil {
